@@ -141,6 +141,11 @@ type Net struct {
 	triggers  []*Trigger
 	dials     int
 	dialVT    []time.Time
+	// WriteDelay, when set before the first dial, stretches client writes: pre is slept before the message is put on
+	// the wire (the caller is inside transport.Write and has not written yet), post after it is on the wire and
+	// before Write returns. Inside a bubble both are virtual. They widen windows between a sender's checks and its
+	// write without creating schedules the transport could not produce (a write may take arbitrarily long).
+	WriteDelay func(class string) (pre, post time.Duration)
 	// DialStacks holds the stack of every dial attempt when DebugDial is set (development aid).
 	DebugDial  bool
 	DialStacks []string
@@ -465,6 +470,19 @@ func (c *Conn) write(b []byte, unrel bool) error {
 	default:
 	}
 	m, cl := l.decode(b)
+	var post time.Duration
+	if f := l.net.WriteDelay; f != nil {
+		var pre time.Duration
+		pre, post = f(cl)
+		if pre > 0 {
+			time.Sleep(pre)
+			select {
+			case <-l.localClosed:
+				return transport.ErrAlreadyClosed
+			default:
+			}
+		}
+	}
 	l.mu.Lock()
 	mode := l.mode
 	ord, ordAny := l.bump(C2S, cl)
@@ -478,6 +496,9 @@ func (c *Conn) write(b []byte, unrel bool) error {
 		l.mu.Lock()
 		l.log = append(l.log, rec)
 		l.mu.Unlock()
+		if post > 0 {
+			time.Sleep(post)
+		}
 		return err
 	}
 	switch mode {
